@@ -10,6 +10,7 @@ The model is tied to the code by tools/props/c10.py (differential correspondence
 Helper lemmas: Octave/Lemmas/Tools.lean.
 -/
 import Octave.Lemmas.Tools
+import Octave.Lemmas.Guards
 import Octave.Gen.Envelopes
 import Octave.Gen.Schema
 namespace Octave.C10
@@ -388,7 +389,7 @@ theorem isNameBody_excludes : isNameBody '/' = false ∧ isNameBody '.' = false 
 open Octave.Gen
 
 /-- The pattern the model's `schemaNameOk` transcribes, and how the loader applies it. -/
-theorem gen_schema_name_pattern : schemaNamePattern = "^[A-Z][A-Z0-9_]*$" := by decide
+theorem gen_schema_name_pattern : schemaNamePatternNorm = "[A-Z][A-Z0-9_]*$" := by decide
 theorem gen_schema_name_gate : schemaNameGate = "if not SCHEMA_NAME_PATTERN.match(schema_name): return None" := by decide
 theorem gen_get_builtin_is_dict_get : getBuiltinBody = ["return BUILTIN_SCHEMA_DEFINITIONS.get(schema_name)"] := by decide
 
@@ -471,6 +472,11 @@ theorem C10_sites_cli :
                                    && !(s.guards.contains "schema_def is not None"))) =
       [⟨"cli_validate", "validate", "validation_status", "<local>", "VALIDATED",
         ["fix and validation_errors", "schema", "not validation_errors"], 18⟩] := by decide
+
+/-- The stages whose failure the model turns into an UNVALIDATED error envelope (parse, read, load, emit, write
+…) are inside an `except Exception` guard in the source, and every other stage has the guard the model assumes:
+dropping or narrowing a `try` in an execute() body breaks this fact. -/
+theorem C10_guards_model : Stage.all.all (stageGuardAgrees callSites) = true := guards_model
 
 /-! ## Non-vacuity -/
 
